@@ -51,4 +51,28 @@ CLAIMS = {
         "thorough tier. Trusted: CrossHair/z3, py2smt translator (validated against the real Link on a grid each run).",
         "technique": "symbolic execution of the real code (CrossHair+z3) + AST-to-SMT translation of admission/accounting (z3 FP64), counterexamples replayed",
     },
+    "C05": {
+        "text": "Bounded symbolic model checking of request resolution on the real code: (kernel) RequestManager.__call__/"
+        "check_valid on a synthetic 3-level tree with solver-chosen missing keys, refusing validators, truncation and "
+        "handler answers; (live tree) every argument-free or templated leaf path of a node in a generated scenario built "
+        "by PrimaiteGame.from_config, unmodified / misspelt at a depth / truncated, under every node power state and "
+        "every service/application operating state: a request that does not reach its handler answers unreachable/"
+        "failure and leaves Simulation.describe_state() bit-identical and sends no frame; (actions) every entry of a "
+        "generated action map is never 'unreachable' when its components exist, never reaches a handler when they do not.",
+        "note": "Bounds: one host of a 4-node (quick) / two topologies (thorough) scenario; leaves with structured "
+        "payload arguments (user/session/terminal/nmap/ACL requests) are exercised through the action map only. Trusted: "
+        "CrossHair/z3, describe_state() as the state observation, the leaf-wrapping recorder.",
+        "technique": TECH_S,
+    },
+    "C11": {
+        "text": "Bounded symbolic model checking of mask-vs-execution on the real game: for every entry of a generated "
+        "action map (all maskable host action types x components, actions naming missing components, router ACL/port "
+        "actions) and every pre-state in {4 node power states} x {service states incl. RESTARTING} x {application "
+        "states incl. INSTALLING} x {NIC flag} x {file live / file deleted / folder deleted}, PrimaiteGame.action_mask "
+        "(and PrimaiteGymEnv.action_masks) equals 'executing the request now reaches its handler', a masked-out action "
+        "never succeeds and an allowed one is never refused by a permission rule.",
+        "note": "Bounds: the generated scenarios and action map (54/66 entries); quick couples service/application states "
+        "(6 pairs), thorough takes the full product. Trusted: CrossHair/z3, the leaf-wrapping recorder.",
+        "technique": TECH_S,
+    },
 }
